@@ -553,6 +553,7 @@ class EngineBase:
 
     def list_copy(self, l):
         c = ListObj(l.cnt, l.n, l.elem, l.isset)
+        c.hash_ordered = getattr(l, 'hash_ordered', False) or l.isset
         return c
 
     def list_slice_prefix(self, l, k):
